@@ -180,6 +180,9 @@ def run_zh(zh, cdir, script, files=None, cpu=CPU_LIMIT, env_extra=None, name="ca
     opened = [i for i in calls if i not in done]
     r.open_call = calls[max(opened)] if opened else None
     r.harness_error = r.first(ev="harness_error")
+    r.xcpu = r.first(ev="xcpu")
+    if r.xcpu is not None:   # the harness's SIGXCPU handler logged where the CPU budget ran out
+        r.cpu_exceeded = True
     r.ended = r.first(ev="end") is not None
     return r
 
